@@ -18,6 +18,7 @@ A_UNSAFE = 'unsafe code: all raw-pointer code is outside Verus; in Kani it is ex
 A_MODEL = 'ptr_ent/at are uninterpreted functions of pointer values: sound while the designated entry is not modified and the table not reallocated between production and use (true in L2 by inspection; exercised by sub_* harnesses)'
 A_NODE = 'A-NODE: the Verus proofs of retain and clone walk the list through the ghost address sequence table.nodes() and the assumed contract of LruCache::at (R11: stands for EntryPtr::get on a pointer of this cache): an entry keeps its address while it stays in an un-rebuilt table, prev/next of node i are nodes i+1 / i-1 with the seal closing the cycle, and a read through a reference obtained before a removal still yields the link stored then (retain reads entry.prev after remove_entry); these are checked only boundedly (Kani: coherent walker, addrs() comparison in sub_remove_entry, op_retain, op_clone)'
 A_CLONE = 'user Clone on K, V, S: only vstd\'s `cloned(a, b)` relation is assumed of a clone; that a cloned key is Eq-equal to its original (needed for later lookups in the clone) is NOT assumed and not proved -- the clone\'s key set is decided by the bounded Kani harnesses only'
+A_HEAP = 'A-HEAP (template l1): the memory model of the node heap -- Heap::{hget, hget_mut, hget_extended, alloc}: a write through a node pointer changes the Entry stored at that address and nothing else, distinct addresses do not alias, alloc returns an address not in use; node pointers compare equal exactly when they are the same address (EntryPtr::eq); addresses never leave the heap domain (liveness of buckets is not modelled: dangling accesses are Kani\'s pointer checks); hashbrown\'s drain / clear_no_drop / RawDrain::next write to no node (A-HB).  Rewrites R13-R16 put the extracted bodies into heap-passing form (logged per site).  A write that stores the value already there is invisible to a functional heap (C19: such writes are caught only by the Kani frame contracts)'
 A_KBOUND = 'Kani bounds: <= 3 entries, table capacity <= 4 (MAXCAP), unwind 6-7, one L1 function or one V-unreachable operation per harness; u8 keys; identity or constant hasher'
 
 PROPS = {
@@ -28,10 +29,10 @@ PROPS = {
         assumptions=[A_SUB, A_HB, A_DOUBLE, A_PURE, A_SIZE, A_ARITH, A_UNSAFE, A_KBOUND],
         design='DESIGN.md §5 C01'),
     'C02': dict(
-        title='exact accounting', level='proof', templates=['l2'],
+        title='exact accounting', level='proof', templates=['l2', 'l1'],
         k_quick=['q_op_clear', 'q_op_retain', 'q_op_clone', 'q_drain', 'q_sub_realloc_grow', 'q_sub_remove_entry', 'q_forget_drain'],
         k_thorough=['t_op_clear', 't_op_retain', 't_op_clone', 't_drain', 't_sub_realloc', 't_sub_remove_entry', 't_op_clone_diverge_touch', 't_op_clone_diverge_clear', 't_op_clone_diverge_retain', 't_framec_remove'],
-        assumptions=[A_SUB, A_HB, A_DOUBLE, A_PURE, A_SIZE, A_ARITH, A_UNSAFE, A_KBOUND],
+        assumptions=[A_HEAP, A_SUB, A_HB, A_DOUBLE, A_PURE, A_SIZE, A_ARITH, A_UNSAFE, A_KBOUND],
         design='DESIGN.md §5 C02'),
     'C03': dict(
         title='LRU-first minimal eviction', level='proof', templates=['l2'],
@@ -47,11 +48,11 @@ PROPS = {
                      'hashbrown probing under collisions is not decided (A-HB is a dependency contract)'],
         design='DESIGN.md §5 C04'),
     'C05': dict(
-        title='recency order', level='proof', templates=['l2', 'iter'],
+        title='recency order', level='proof', templates=['l2', 'iter', 'l1'],
         k_quick=['q_sub_touch_ptr', 'q_sub_touch_ptr_only', 'q_sub_insert_set_head', 'q_sub_lru_mru_ptr', 'q_sub_realloc_grow',
                  'q_op_clone', 'q_op_retain', 'q_op_ends', 'q_iter_link', 'q_it_iter'],
         k_thorough=SUB_T + ['t_op_clone', 't_op_retain', 't_iter_link', 't_it_borrowing', 't_frame_debug', 't_framec_touch', 't_framec_get_lru'],
-        assumptions=[A_SUB, A_HB, A_DOUBLE, A_EQ, A_MODEL, A_KBOUND,
+        assumptions=[A_HEAP, A_SUB, A_HB, A_DOUBLE, A_EQ, A_MODEL, A_KBOUND,
                      '&self operations cannot change the abstract table value in Verus; that they do not write is C19 (Kani, bounded)'],
         design='DESIGN.md §5 C05'),
     'C06': dict(
@@ -63,10 +64,10 @@ PROPS = {
                      'composite L2 operations: Verus shows every departing entry passes through remove_metadata and is then returned or dropped by safe code (clauses tagged C06); exactly-once for safe code is rustc ownership'],
         design='DESIGN.md §5 C06'),
     'C07': dict(
-        title='list/table coherence and memory safety', level='model_checking', templates=['l2'],
+        title='list/table coherence and memory safety', level='model_checking', templates=['l2', 'l1'],
         k_quick=SUB_Q + ['q_op_clear', 'q_op_retain', 'q_op_clone', 'q_op_ends', 'q_drain', 'q_iter_link', 'q_sub_collide', 'q_forget_drain', 'q_cb_try_reallocate'],
         k_thorough=SUB_T + ['t_op_clear', 't_op_retain', 't_op_clone', 't_drain', 't_iter_link', 't_op_clone_diverge_touch', 't_op_clone_diverge_clear', 't_op_clone_diverge_retain'],
-        assumptions=[A_DOUBLE, A_HB, A_UNSAFE, A_KBOUND,
+        assumptions=[A_HEAP, A_DOUBLE, A_HB, A_UNSAFE, A_KBOUND,
                      'caches with thousands of entries are not reached; composite public operations are covered through V (acct after each of them) over these L1 contracts',
                      'retain reads entry.prev from a bucket whose Entry was just moved out (bitwise intact); neither CBMC nor Miri flags it'],
         design='DESIGN.md §5 C07'),
@@ -93,10 +94,10 @@ PROPS = {
         assumptions=[A_SUB, A_HB, A_DOUBLE, A_PURE, A_EQ, A_SIZE, A_ARITH, A_MODEL, A_KBOUND],
         design='DESIGN.md §5 C11'),
     'C12': dict(
-        title='iterators', level='proof', templates=['iter'],
+        title='iterators', level='proof', templates=['iter', 'l1'],
         k_quick=['q_iter_link', 'q_it_iter', 'q_it_keys_values', 'q_it_empty_single', 'q_drain', 'q_it_into_iter', 'q_it_into_keys_values', 'q_ledger_into_iter', 'q_ledger_owning_mixed'],
         k_thorough=['t_iter_link', 't_it_borrowing', 't_drain', 't_it_owning'],
-        assumptions=[A_SUB, A_DOUBLE, A_UNSAFE, A_KBOUND,
+        assumptions=[A_HEAP, A_SUB, A_DOUBLE, A_UNSAFE, A_KBOUND,
                      'snap()/at() heap snapshot: the link structure is immutable while an iterator runs; that the real links satisfy linked() is Kani harness iter_link (bounded)',
                      'Drain::drop / IntoIter::drop: Verus proves (R12) that they drain every entry not yet yielded and leave the table cleared; Drain::new: Verus proves that it leaves the cache listing nothing (current_size 0, table cleared) while the cursor covers every entry; the seal reset is raw-pointer code: bounded harnesses q_drain, q_ledger_*, q_forget_*'],
         design='DESIGN.md §5 C12'),
@@ -133,18 +134,18 @@ PROPS = {
                      'call-backs of the composite L2 operations (insert, try_insert, mutate) precede any modification: shown by the order of calls in the Verus-verified bodies, not by a separate obligation'],
         design='DESIGN.md §5 C16'),
     'C17': dict(
-        title='leaked iterators', level='model_checking', templates=['iter'],
+        title='leaked iterators', level='model_checking', templates=['iter', 'l1'],
         k_quick=['q_forget_drain', 'q_forget_drain_first', 'q_forget_owning', 'q_forget_borrowing', 'q_forget_mixed'],
         k_thorough=[],
-        assumptions=[A_DOUBLE, A_HB, A_UNSAFE, A_KBOUND], design='DESIGN.md §5 C17'),
+        assumptions=[A_HEAP, A_DOUBLE, A_HB, A_UNSAFE, A_KBOUND], design='DESIGN.md §5 C17'),
     'C19': dict(
-        title='&self operations never write', level='model_checking', templates=[],
+        title='&self operations never write', level='model_checking', templates=['l1'],
         k_quick=['q_frame_lookups', 'q_frame_lookups_small', 'q_it_iter', 'q_it_keys_values', 'q_op_clone',
                  # frame contracts with an empty modifies clause: CBMC checks every write instruction, so a write that restores the old value is still a write
                  't_framec_peek', 't_framec_peek_entry', 't_framec_contains', 't_framec_peek_ends', 't_framec_iter', 't_framec_scalars'],
         k_thorough=['t_frame_lookups', 't_it_borrowing', 't_op_clone', 't_frame_debug', 't_framec_peek', 't_framec_peek_entry',
                     't_framec_contains', 't_framec_peek_ends', 't_framec_iter', 't_framec_scalars'],
-        assumptions=[A_DOUBLE, A_HB, A_UNSAFE, A_KBOUND, 'the data-race clause follows by the property\'s own implication; no schedule is explored'],
+        assumptions=[A_HEAP, A_DOUBLE, A_HB, A_UNSAFE, A_KBOUND, 'the data-race clause follows by the property\'s own implication; no schedule is explored'],
         design='DESIGN.md §5 C19'),
     'C20': dict(
         title='hashing work bounded', level='model_checking', templates=['l2'],
